@@ -1,6 +1,7 @@
 package props
 
 import (
+	"strings"
 	"fmt"
 	"math/rand/v2"
 
@@ -99,9 +100,9 @@ func c07Gen(rng *rand.Rand) c07Prog {
 	}
 	n := 3 + rng.IntN(8)
 	for i := 0; i < n; i++ {
-		if rng.IntN(5) == 0 {
+		if rng.IntN(3) == 0 {
 			nestID++
-			it := c07Item{kind: []string{"block", "if", "while"}[rng.IntN(3)]}
+			it := c07Item{kind: []string{"block", "if", "while", "else", "else-if", "else-if-else", "match-arm", "match-default", "for"}[rng.IntN(9)]}
 			for j := 0; j < 1+rng.IntN(3); j++ {
 				it.body = append(it.body, mkOp(nestID))
 			}
@@ -127,7 +128,7 @@ func (p *c07Prog) classify() (string, string) {
 		}
 		nest++
 		lp := 0
-		if it.kind == "while" {
+		if it.kind == "while" || it.kind == "for" {
 			loop++
 			lp = loop
 		}
@@ -252,6 +253,7 @@ func (p *c07Prog) program() *gen.Program {
 	main := []gen.Stmt{
 		&gen.Let{Name: "x", T: I32, Init: lit(1), Annot: true},
 		&gen.Let{Name: "y", T: I32, Init: lit(2), Annot: true},
+		&gen.Let{Name: "zq", T: I32, Init: lit(2), Annot: true}, // read by the branch flags only: never borrowed
 		&gen.Let{Name: "p", T: pt, Init: &gen.StructLit{T: pt, Vals: []gen.Expr{lit(3), lit(4)}}, Annot: true},
 		&gen.Let{Name: "a", T: at, Init: &gen.ArrLit{T: at, Elems: []gen.Expr{lit(5), lit(6)}}, Annot: true},
 	}
@@ -291,7 +293,40 @@ func (p *c07Prog) program() *gen.Program {
 		case "if":
 			ln++
 			f := fmt.Sprintf("flag%d", ln)
-			main = append(main, &gen.Let{Name: f, T: gen.TBool, Init: &gen.Bin{Op: ">", L: &gen.Var{Name: "y", T: I32}, R: lit(-5), T: gen.TBool}, Annot: true}, &gen.If{Cond: &gen.Var{Name: f, T: gen.TBool}, Then: body})
+			main = append(main, &gen.Let{Name: f, T: gen.TBool, Init: &gen.Bin{Op: ">", L: &gen.Var{Name: "zq", T: I32}, R: lit(-5), T: gen.TBool}, Annot: true}, &gen.If{Cond: &gen.Var{Name: f, T: gen.TBool}, Then: body})
+		case "else", "else-if", "else-if-else":
+			// the body sits in the else / else-if / trailing else arm (the arm that runs: the
+			// opaque flag is false)
+			ln++
+			f := fmt.Sprintf("flag%d", ln)
+			fv := &gen.Var{Name: f, T: gen.TBool}
+			main = append(main, &gen.Let{Name: f, T: gen.TBool, Init: &gen.Bin{Op: "<", L: &gen.Var{Name: "zq", T: I32}, R: lit(-5000), T: gen.TBool}, Annot: true})
+			switch it.kind {
+			case "else":
+				main = append(main, &gen.If{Cond: fv, Then: []gen.Stmt{}, Else: body})
+			case "else-if":
+				main = append(main, &gen.If{Cond: fv, Then: []gen.Stmt{}, Else: []gen.Stmt{&gen.If{Cond: &gen.Un{Op: "!", X: fv}, Then: body}}})
+			default:
+				main = append(main, &gen.If{Cond: fv, Then: []gen.Stmt{}, Else: []gen.Stmt{&gen.If{Cond: fv, Then: []gen.Stmt{}, Else: body}}})
+			}
+		case "match-arm", "match-default":
+			ln++
+			sn := fmt.Sprintf("sel%d", ln)
+			main = append(main, &gen.Let{Name: sn, T: I32, Init: lit(1), Annot: true})
+			m := &gen.Match{Subj: &gen.Var{Name: sn, T: I32}, HasDef: true}
+			if it.kind == "match-arm" {
+				m.Arms = []gen.MatchArm{{Pat: lit(0), Body: []gen.Stmt{}}, {Pat: lit(1), Body: body}}
+				m.Default = []gen.Stmt{}
+			} else {
+				m.Arms = []gen.MatchArm{{Pat: lit(0), Body: []gen.Stmt{}}}
+				m.Default = body
+			}
+			main = append(main, m)
+		case "for":
+			ln++
+			lo, hi := fmt.Sprintf("lo%d", ln), fmt.Sprintf("hi%d", ln)
+			main = append(main, &gen.Let{Name: lo, T: I32, Init: lit(0), Annot: true}, &gen.Let{Name: hi, T: I32, Init: lit(2), Annot: true},
+				&gen.ForRange{Var: fmt.Sprintf("q%d", ln), T: I32, Lo: &gen.Var{Name: lo, T: I32}, Hi: &gen.Var{Name: hi, T: I32}, Body: body})
 		default:
 			ln++
 			cn := fmt.Sprintf("it%d", ln)
@@ -312,7 +347,7 @@ func (p *c07Prog) program() *gen.Program {
 
 func checkC07(c *Ctx) error {
 	r := c.R
-	r.Rule = "random event sequences of 3-10 events over places {x, y, p.A, p.B, a[0], a[1]} and up to 3 references: shared/mutable borrow, read/write through the reference, read/write of the place, at top level or inside one block / if / while; classified by the loan model (MUST_REJECT: conflicting access while the reference is used later in program order or in the same loop; MUST_ACCEPT: no conflict even when loans last to the end of the statement containing their last mention, no array elements involved; MAY otherwise); plus fixed cases for returning a reference to a local / to a parameter and pinned probes for derived references. MUST_REJECT accepted and MUST_ACCEPT rejected are violations; every accepted program is run natively and compared with the interpreter. non-trivial = a distinct sequence whose verdict matched the model (and whose output matched when accepted)"
+	r.Rule = "random event sequences of 3-10 events over places {x, y, p.A, p.B, a[0], a[1]} and up to 3 references: shared/mutable borrow, read/write through the reference, read/write of the place, at top level or inside one block / if / else / else-if arm / trailing else / match arm / match default / while / for; classified by the loan model (MUST_REJECT: conflicting access while the reference is used later in program order or in the same loop; MUST_ACCEPT: no conflict even when loans last to the end of the statement containing their last mention, no array elements involved; MAY otherwise); plus fixed cases for returning a reference to a local / to a parameter and pinned probes for derived references. MUST_REJECT accepted and MUST_ACCEPT rejected are violations; every accepted program is run natively and compared with the interpreter. non-trivial = a distinct sequence whose verdict matched the model (and whose output matched when accepted)"
 	r.Assumptions = []string{"distinct elements of one array are MAY (the implementation treats index borrows conservatively)", "a loan expires after the last mention of its reference variable"}
 	n := c.N(300, 8000)
 	type cse struct {
@@ -341,6 +376,10 @@ func checkC07(c *Ctx) error {
 		cse{id: "probe:derived-ref-from-call", class: "reject", why: "m = idm(&'a) is a mutable reference to a; a = 5 while m is used later", src: "import \"std/io\";\n\nfn idm(x: &'i32) -> &'i32 {\n    return x;\n}\n\nfn main() {\n    let a := 10;\n    let m := idm(&'a);\n    a = 5;\n    m = 2;\n    io::Println(a);\n}\n"},
 		cse{id: "probe:derived-field-ref-from-call", class: "reject", why: "m = fieldOf(&'p) refers to p.A; p.A = 7 while m is used later", src: "import \"std/io\";\n\ntype Pair struct { .A: i32, .B: i32 };\n\nfn fieldOf(p: &'Pair) -> &'i32 {\n    return &'p.A;\n}\n\nfn main() {\n    let p: Pair = { .A = 1, .B = 2 };\n    let m := fieldOf(&'p);\n    p.A = 7;\n    m = 3;\n    io::Println(p.A);\n}\n"},
 	)
+	// write-through with implicitly widened values: accepted and compared with the interpreter
+	if wt := mxWriteThrough(); wt != nil {
+		fixed = append(fixed, cse{id: "fixed:write-through-widths", class: "accept", prog: wt, src: wt.Source()})
+	}
 	cases = append(cases, fixed...)
 	tcs := make([]TC, len(cases))
 	for i, cs := range cases {
@@ -404,7 +443,7 @@ func checkC07(c *Ctx) error {
 	}
 	var sel []int
 	for k, i := range toRun {
-		if k%stride == 0 && cases[i].prog != nil {
+		if (k%stride == 0 || strings.HasPrefix(cases[i].id, "fixed:")) && cases[i].prog != nil {
 			sel = append(sel, i)
 		} else {
 			r.Nontrivial(cases[i].src)
